@@ -7,6 +7,7 @@ import (
 	"runtime"
 	"sync"
 	"sync/atomic"
+	"time"
 
 	"github.com/mit-pdos/go-nfsd/kvs"
 	"github.com/mit-pdos/go-nfsd/simple"
@@ -117,6 +118,8 @@ func RunSimpleConc(cfg SmallConcCfg, t *Trace, seg int) int {
 	}
 	waitQuiet(d)
 	base := d.StartRecording()
+	d.Yield = diskYield(cfg.Seed)
+	defer func() { d.Yield = nil }()
 	t.Emit(Reset{Ev: "reset", Seg: seg, Driver: "simpleconc", Seed: cfg.Seed, DiskSz: int(cfg.DiskSz), Root: simpleFh(1), KeepHist: cfg.Crash})
 	seg++
 	h := &smallHist{calls: map[int]interface{}{}, cl: map[int]int{}}
@@ -212,6 +215,8 @@ func RunKvsConc(cfg SmallConcCfg, t *Trace, seg int) int {
 	k := kvs.MkKVS(d, sz)
 	waitQuiet(d)
 	base := d.StartRecording()
+	d.Yield = diskYield(cfg.Seed)
+	defer func() { d.Yield = nil }()
 	keys := []uint64{513, 514, 515, 600, sz - 1}
 	t.Emit(map[string]interface{}{"ev": "reset", "seg": seg, "driver": "kvsconc", "seed": cfg.Seed, "disksz": int(sz), "unstable": false,
 		"root": "", "keephist": cfg.Crash, "keys": keys, "lo": 513, "hi": int(sz)})
@@ -232,14 +237,19 @@ func RunKvsConc(cfg SmallConcCfg, t *Trace, seg int) int {
 				if r.Intn(100) < 60 {
 					e.Op = "put"
 					np := []int{1, 2, 2, 3, 4}[r.Intn(5)]
+					few := cfg.Seed%2 == 1 // few keys and values: a put often carries the value a key already holds
+					if few {
+						np = 2
+					}
 					for j := 0; j < np; j++ {
 						key := keys[r.Intn(3)]
 						if r.Intn(6) == 0 {
 							key = keys[r.Intn(len(keys))]
 						}
 						v := 1 + int(atomic.AddInt32(&tag, 1))%250
-						if cfg.Seed%2 == 1 {
-							v = 1 + r.Intn(3) // few values: a put often carries the value the key already holds
+						if few {
+							key = keys[j] // both hot keys in every put
+							v = 1 + r.Intn(2)
 						}
 						e.Pairs = append(e.Pairs, [2]int{int(key), v})
 						pairs = append(pairs, kvs.KVPair{Key: key, Val: blockOf(v)})
@@ -317,5 +327,185 @@ func RunKvsConc(cfg SmallConcCfg, t *Trace, seg int) int {
 		t.Emit(final)
 	}
 	fmt.Fprintf(os.Stderr, "kvsconc: %d stream events, %d probes\n", len(h.events), np)
+	return seg
+}
+
+// diskYield: seeded scheduling points at disk reads and writes of home blocks (the small servers have no hook points)
+func diskYield(seed int) func(kind string, a uint64) {
+	var x uint32 = uint32(seed)*2654435761 + 7
+	return func(kind string, a uint64) {
+		if a < 513 {
+			return
+		}
+		v := atomic.AddUint32(&x, 0x9e3779b9)
+		v ^= v >> 13
+		switch v % 5 {
+		case 0, 1:
+			runtime.Gosched()
+		case 2:
+			time.Sleep(time.Duration(20+v%150) * time.Microsecond)
+		}
+	}
+}
+
+// RunKvsGates: directed schedules for kvs. The victim call is held right after its first disk read of a key's home
+// block (a gate in the disk, the only place where a server without hooks can be stopped) while an intruder put
+// completes; then the victim resumes. On a store whose put does not read, the gate never closes and the schedule is
+// sequential; a put that looks at the current value first is stopped exactly between its look and its commit.
+func RunKvsGates(seed int, t *Trace, seg int) int {
+	type exp struct {
+		victim [][2]int // pairs (key index, value); value 0 = "the value the key has now"
+		get    int      // >= 0: the victim is a get of this key index
+		intr   [][][2]int
+		gate   int // key index whose read is gated
+	}
+	var exps []exp
+	for _, gate := range []int{0, 1} {
+		for _, v := range [][][2]int{{{0, 0}, {1, 7}}, {{0, 7}, {1, 0}}, {{0, 0}, {1, 0}}, {{1, 7}, {0, 0}}} {
+			for _, in := range [][][][2]int{{{{0, 8}, {1, 9}}}, {{{0, 8}}}, {{{1, 9}}}, {{{0, 8}, {1, 9}}, {{0, 5}}}} {
+				exps = append(exps, exp{victim: v, get: -1, intr: in, gate: gate})
+			}
+		}
+		exps = append(exps, exp{get: gate, intr: [][][2]int{{{0, 8}, {1, 9}}}, gate: gate})
+	}
+	sz := uint64(2000)
+	for k, e := range exps {
+		d := vdisk.New(sz + 8)
+		kv := kvs.MkKVS(d, sz)
+		keys := []uint64{513, 514, 600, sz - 1}
+		t.Emit(map[string]interface{}{"ev": "reset", "seg": seg, "driver": "kvsgate", "seed": seed*1000 + k, "disksz": int(sz), "unstable": false,
+			"root": "", "keephist": false, "keys": keys, "lo": 513, "hi": int(sz)})
+		seg++
+		idx := 0
+		cur := map[int]int{}
+		emit := func(cl int, ev *KvEv, inv bool) {
+			if inv {
+				t.Emit(SHEv{Ev: "inv", Cl: cl, Call: ev})
+			} else {
+				t.Emit(SHEv{Ev: "ret", Cl: cl, Call: map[string]interface{}{"i": ev.I}})
+			}
+		}
+		put := func(ps [][2]int) *KvEv {
+			ev := &KvEv{Ev: "kv", I: idx, Op: "put", Pairs: [][2]int{}, St: "OK"}
+			idx++
+			var pairs []kvs.KVPair
+			for _, p := range ps {
+				v := p[1]
+				if v == 0 {
+					v = cur[p[0]]
+				}
+				ev.Pairs = append(ev.Pairs, [2]int{int(keys[p[0]]), v})
+				pairs = append(pairs, kvs.KVPair{Key: keys[p[0]], Val: blockOf(v)})
+			}
+			func() {
+				defer func() {
+					if recover() != nil {
+						ev.St = "PANIC"
+					}
+				}()
+				ev.OK = kv.MultiPut(pairs)
+			}()
+			if ev.OK {
+				for _, p := range ev.Pairs {
+					for i, key := range keys {
+						if int(key) == p[0] {
+							cur[i] = p[1]
+						}
+					}
+				}
+			}
+			return ev
+		}
+		// initial values, installed (so that a later read goes to the disk)
+		i0 := put([][2]int{{0, 3}, {1, 4}})
+		emit(0, i0, true)
+		emit(0, i0, false)
+		waitQuiet(d)
+		sleepMs(20)
+		waitQuiet(d)
+		var victimG int64
+		var fired int32
+		inWin := make(chan struct{}, 1)
+		resume := make(chan struct{})
+		d.Yield = func(kind string, a uint64) {
+			if kind == "read" && a == keys[e.gate] && goid() == atomic.LoadInt64(&victimG) && atomic.CompareAndSwapInt32(&fired, 0, 1) {
+				inWin <- struct{}{}
+				select {
+				case <-resume:
+				case <-timeAfter(10):
+				}
+			}
+		}
+		var vev *KvEv
+		vdone := make(chan struct{})
+		vcur := map[int]int{0: cur[0], 1: cur[1]}
+		go func() {
+			defer close(vdone)
+			atomic.StoreInt64(&victimG, goid())
+			if e.get >= 0 {
+				vev = &KvEv{Ev: "kv", I: 1000, Op: "get", Pairs: [][2]int{}, St: "OK", Key: int(keys[e.get])}
+				func() {
+					defer func() {
+						if recover() != nil {
+							vev.St = "PANIC"
+						}
+					}()
+					p, ok := kv.Get(keys[e.get])
+					vev.OK, vev.Val = ok, valOf(p.Val)
+				}()
+				return
+			}
+			vev = &KvEv{Ev: "kv", I: 1000, Op: "put", Pairs: [][2]int{}, St: "OK"}
+			var pairs []kvs.KVPair
+			for _, p := range e.victim {
+				v := p[1]
+				if v == 0 {
+					v = vcur[p[0]]
+				}
+				vev.Pairs = append(vev.Pairs, [2]int{int(keys[p[0]]), v})
+				pairs = append(pairs, kvs.KVPair{Key: keys[p[0]], Val: blockOf(v)})
+			}
+			func() {
+				defer func() {
+					if recover() != nil {
+						vev.St = "PANIC"
+					}
+				}()
+				vev.OK = kv.MultiPut(pairs)
+			}()
+		}()
+		window := false
+		select {
+		case <-inWin:
+			window = true
+		case <-vdone:
+		case <-timeAfter(10):
+		}
+		// the victim's invoke precedes everything the intruder does; its reply is joined when it has returned
+		var intr []*KvEv
+		if window {
+			for _, ps := range e.intr {
+				intr = append(intr, put(ps))
+			}
+			close(resume)
+		}
+		<-vdone
+		d.Yield = nil
+		emit(1, vev, true)
+		for _, ev := range intr {
+			emit(2, ev, true)
+			emit(2, ev, false)
+		}
+		emit(1, vev, false)
+		if !window {
+			for _, ps := range e.intr {
+				ev := put(ps)
+				emit(2, ev, true)
+				emit(2, ev, false)
+			}
+		}
+		t.Emit(kvDump(kv, keys, "final"))
+		kv.Delete()
+	}
 	return seg
 }
